@@ -5,7 +5,7 @@ refactorings must not have blunted them).
 usage: crosstest.py [-k Cxx]  → one line per applicable pair: DETECTED / MISSED / (skipped when the patches overlap)"""
 import json, os, subprocess, sys, glob, tempfile, shutil, re
 ROOT = os.path.dirname(os.path.dirname(os.path.abspath(__file__)))
-SCR = "/tmp/mrepo"
+SCR = os.environ.get("VERIF_SCR", "/tmp/mrepo")
 def sh(c): return subprocess.run(c, shell=True, capture_output=True, text=True)
 filt = sys.argv[sys.argv.index("-k") + 1] if "-k" in sys.argv else None
 sh("git -C /repo worktree prune; [ -d %s ] || git -C /repo worktree add -q --detach %s HEAD" % (SCR, SCR))
